@@ -771,7 +771,10 @@ class Interp:
                 c = obj.content
                 if isinstance(c, A.SeqVal):
                     if isinstance(key, slice):
-                        raise EngineError("slice of symbolic list")
+                        # python clamps slice bounds; here the slice is required to lie inside the list (side obligation)
+                        st_, ln_ = A._slice_bounds(key, c.length)
+                        fn_ = c.fn
+                        return Ref(cur().alloc(Content("list", A.SeqVal(ln_, lambda i, st_=st_, fn_=fn_: fn_(A.simp(sv.add(st_, i)))))), "list")
                     i = A._norm_index(key, c.length)
                     return c.fn(i)
                 return self._seq_getitem(c, key, aslist=True)
@@ -1141,6 +1144,13 @@ class Interp:
     def py_eq(self, a, b):
         if a is None or b is None:
             return a is None and b is None
+        from .text import LineVal, line_eq
+        if isinstance(a, LineVal) or isinstance(b, LineVal):
+            if isinstance(a, LineVal) and isinstance(b, str):
+                return line_eq(a, b)
+            if isinstance(b, LineVal) and isinstance(a, str):
+                return line_eq(b, a)
+            raise EngineError("comparison of file lines")
         if isinstance(a, str) or isinstance(b, str):
             from .lib import DType
             if isinstance(a, DType) or isinstance(b, DType):
